@@ -280,14 +280,17 @@ def report(ck, monitor, regime, entry, mech, hist, real, ref, extra=None):
         raise Flood()
 
 
-def compare(ck, monitor, regime, entry, hist, real, ref, was_stopped):
-    """One node: continual() always; counters up to and including the first stop."""
+def compare(ck, monitor, regime, entry, hist, real, ref, was_stopped, parent_cont=False):
+    """One node: continual() always; counters up to and including the first stop.
+    parent_cont: continual() of the real object before this step."""
     rc = cont_of(real)
     ok = True
     if rc != ref.cont:
         ok = False
-        if was_stopped:
+        if was_stopped and not parent_cont:
             mech = "rearmed_after_stop"
+        elif was_stopped:
+            mech = "still_continual_after_missed_stop"
         elif rc:
             mech = "did_not_stop_on_" + "+".join(ref.cause)
         else:
@@ -333,6 +336,7 @@ def tree_sop(ck, steps, patience, depth, rng, tally, stub_cls=StubLM):
         return new
 
     def rec(real, ref, prev, d, was_stopped):
+        pc = cont_of(real)
         for letter in LETTERS:
             r2, f2 = copy.deepcopy(real), copy.copy(ref)
             hist.append(letter)
@@ -343,7 +347,7 @@ def tree_sop(ck, steps, patience, depth, rng, tally, stub_cls=StubLM):
                 hist.pop()
                 continue
             tally.nodes += 1
-            compare(ck, monitor, regime, entry, hist, r2, f2, was_stopped)
+            compare(ck, monitor, regime, entry, hist, r2, f2, was_stopped, pc)
             if not was_stopped and not f2.cont:
                 k = "+".join(f2.cause)
                 tally.by_cause[k] = tally.by_cause.get(k, 0) + 1
@@ -358,8 +362,9 @@ def tree_sop(ck, steps, patience, depth, rng, tally, stub_cls=StubLM):
         while d < 12:
             letter = LETTERS[int(rng.integers(0, 6))]
             hist.append(letter)
+            pc = cont_of(real)
             prev = apply(real, ref, letter, prev)
-            compare(ck, "suffix.StopOnPlateau", regime, entry, hist, real, ref, was_stopped)
+            compare(ck, "suffix.StopOnPlateau", regime, entry, hist, real, ref, was_stopped, pc)
             was_stopped = was_stopped or not ref.cont
             tally.suffix_steps += 1
             d += 1
@@ -390,6 +395,7 @@ def tree_rtb(ck, steps, patience, depth, rng, tally, dec=1e-3, reset_depth=4):
         return new
 
     def rec(real, ref, prev, d, was_stopped):
+        pc = cont_of(real)
         for letter in LETTERS:
             r2, f2 = copy.deepcopy(real), copy.copy(ref)
             hist.append(letter)
@@ -403,7 +409,7 @@ def tree_rtb(ck, steps, patience, depth, rng, tally, dec=1e-3, reset_depth=4):
             if f2.ambiguous:
                 tally.by_cause["ambiguous"] = tally.by_cause.get("ambiguous", 0) + 1
             else:
-                compare(ck, monitor, regime, entry, hist, r2, f2, was_stopped)
+                compare(ck, monitor, regime, entry, hist, r2, f2, was_stopped, pc)
             if not was_stopped and not f2.cont:
                 k = "+".join(f2.cause)
                 tally.by_cause[k] = tally.by_cause.get(k, 0) + 1
@@ -420,9 +426,10 @@ def tree_rtb(ck, steps, patience, depth, rng, tally, dec=1e-3, reset_depth=4):
         while d < 12:
             letter = LETTERS[int(rng.integers(0, 6))]
             hist.append(letter)
+            pc = cont_of(real)
             prev = apply(real, ref, letter, prev)
             if not ref.ambiguous:
-                compare(ck, "suffix.ReduceToBason", regime, entry, hist, real, ref, was_stopped)
+                compare(ck, "suffix.ReduceToBason", regime, entry, hist, real, ref, was_stopped, pc)
             was_stopped = was_stopped or not ref.cont
             tally.suffix_steps += 1
             d += 1
